@@ -420,6 +420,88 @@ int MPI_Waitsome(int incount, MPI_Request reqs[], int *outcount, int indices[], 
   if (g_log) fputc('\n', g_log);
   return rp.hdr.err;
 }
+// ---- convenience calls layered on the primitives above, so that a harmless switch of the library to one of them does not stop
+// the harnesses from building (their log lines are the primitives' lines) ----
+int MPI_Wait(MPI_Request *req, MPI_Status *st) {
+  if (*req == MPI_REQUEST_NULL) return MPI_SUCCESS;
+  int outcount = 0, idx = 0;
+  MPI_Status s1;
+  int err = MPI_Waitsome(1, req, &outcount, &idx, &s1);
+  if (st && outcount == 1) *st = s1;
+  return err;
+}
+int MPI_Waitall(int count, MPI_Request reqs[], MPI_Status statuses[]) {
+  int err = MPI_SUCCESS;
+  for (int i = 0; i < count; ++i) { int e = MPI_Wait(&reqs[i], statuses ? &statuses[i] : nullptr); if (e != MPI_SUCCESS) err = e; }
+  return err;
+}
+int MPI_Waitany(int count, MPI_Request reqs[], int *index, MPI_Status *st) {
+  bool any = false;
+  for (int i = 0; i < count; ++i) any = any || reqs[i] != MPI_REQUEST_NULL;
+  if (!any) { *index = MPI_UNDEFINED; return MPI_SUCCESS; }
+  if (count > SIM_MAXREQ) die("MPI_Waitany: too many requests for simmpi");
+  int outcount = 0, indices[SIM_MAXREQ];
+  MPI_Status sts[SIM_MAXREQ];
+  // MPI_Waitsome may complete several: only the first is reported here, the others stay completed-and-null, which a caller of
+  // MPI_Waitany does not expect; refuse rather than mis-simulate
+  int live = 0, which = -1;
+  for (int i = 0; i < count; ++i) if (reqs[i] != MPI_REQUEST_NULL) { ++live; which = i; }
+  if (live != 1) die("MPI_Waitany over several live requests is not simulated");
+  int err = MPI_Waitsome(1, &reqs[which], &outcount, indices, sts);
+  *index = which;
+  if (st) *st = sts[0];
+  return err;
+}
+int MPI_Testall(int count, MPI_Request reqs[], int *flag, MPI_Status statuses[]) {
+  int err = MPI_SUCCESS;
+  *flag = 1;
+  for (int i = 0; i < count; ++i) {
+    int f = 0;
+    int e = MPI_Test(&reqs[i], &f, statuses ? &statuses[i] : nullptr);
+    if (e != MPI_SUCCESS) err = e;
+    if (!f) *flag = 0;
+  }
+  return err;
+}
+int MPI_Testany(int count, MPI_Request reqs[], int *index, int *flag, MPI_Status *st) {
+  *flag = 0; *index = MPI_UNDEFINED;
+  bool any = false;
+  for (int i = 0; i < count; ++i) {
+    if (reqs[i] == MPI_REQUEST_NULL) continue;
+    any = true;
+    int f = 0;
+    int e = MPI_Test(&reqs[i], &f, st);
+    if (e != MPI_SUCCESS) return e;
+    if (f) { *flag = 1; *index = i; return MPI_SUCCESS; }
+  }
+  if (!any) *flag = 1;
+  return MPI_SUCCESS;
+}
+int MPI_Testsome(int incount, MPI_Request reqs[], int *outcount, int indices[], MPI_Status statuses[]) {
+  *outcount = 0;
+  bool any = false;
+  for (int i = 0; i < incount; ++i) {
+    if (reqs[i] == MPI_REQUEST_NULL) continue;
+    any = true;
+    int f = 0;
+    MPI_Status s1;
+    int e = MPI_Test(&reqs[i], &f, &s1);
+    if (e != MPI_SUCCESS) return e;
+    if (f) { if (statuses) statuses[*outcount] = s1; indices[(*outcount)++] = i; }
+  }
+  if (!any) *outcount = MPI_UNDEFINED;
+  return MPI_SUCCESS;
+}
+int MPI_Reduce(const void *sb, void *rb, int count, MPI_Datatype dt, MPI_Op op, int root, MPI_Comm c) {
+  std::vector<char> tmp((size_t)count * (size_t)(dt & 0xff));
+  int err = MPI_Allreduce(sb, tmp.data(), count, dt, op, c);
+  int me = 0;
+  MPI_Comm_rank(c, &me);
+  if (me == root) memcpy(rb, tmp.data(), tmp.size());
+  return err;
+}
+int MPI_Ssend(const void *buf, int count, MPI_Datatype dt, int dest, int tag, MPI_Comm c) { return MPI_Send(buf, count, dt, dest, tag, c); }
+int MPI_Finalized(int *flag) { *flag = 0; return MPI_SUCCESS; }
 int MPI_Cancel(MPI_Request *req) {
   SimReq r = mk(OP_CANCEL, 0);
   r.nreq = 1; r.reqs[0] = *req;
